@@ -35,7 +35,7 @@ import (
 	"verif/internal/l2"
 )
 
-const ruleText = "scenario i is a pure function of (seed, i): 0-5 scripted peers (per-request outcomes answer / unrelated-then-answer / " +
+const ruleText = "scenario i is a pure function of (seed, i): 0-5 scripted peers (per-request outcomes answer / unrelated-then-answer / chatter (irrelevant messages every 50-300 ms for 8 s, never the answer; family chatter, scenario 0 of it fixed) / " +
 	"partial-progress-then-answer / silence / silence-then-late-answer / progress-then-silence / disconnect mid-job / progress-then-disconnect; " +
 	"connects, idle leaves, pre-disconnected delivery, same-address reconnect at logical trigger points), 1-4 batches of 0-7 requests with " +
 	"NumRetries 1-3 / default / NoRetryMax, Timeout, ProgressTimeout, Cancel closed at a trigger, Encoding; kinds mixed, stopmid (Stop with " +
@@ -134,6 +134,7 @@ func runChild() {
 	l2Only := flag.Bool("l2only", false, "debug: run only the L2 family")
 	idleOnly := flag.Bool("idleonly", false, "debug: run only the idle-stall family (in-process)")
 	quietOnly := flag.Bool("quietonly", false, "debug: run only the quiet-reconnect family (in-process)")
+	chatOnly := flag.Bool("chatonly", false, "debug: run only the chatter family (in-process)")
 	l2K := flag.Int("l2k", -1, "debug: run this L2 scenario in this process and print its result")
 	r := evid.New("C12", "exploration")
 	r.Rule(ruleText)
@@ -148,23 +149,29 @@ func runChild() {
 	r.Assume("NumRetries(n) means at most max(n,1) attempts per request, as implemented and as the package's own tests expect")
 	r.Assume("violations that rest on absence of progress (request-not-reissued, probe-starved) are raised only after 30 s without any event in the scenario (the longest worker timeout a scenario can legitimately reach is 8 s: at most three scripted silences, 2 s doubling) and only if the scenario's own dispatcher goroutine (pprof label) is parked at one statement in two samples 2 s apart; Stop-blocked likewise")
 
+	r.Assume("request-not-reissued/last-attempt=chatter (family chatter) is judged from the recorded history and harness timers only: a request stayed with a peer that sent messages its handler judged neither Finished nor Progressed (each after a harness timer of 50-300 ms, never the answer) while a responsive peer was connected with nothing outstanding, and the harness timers lying completely inside that stretch add up to at least 3 worker timeouts of the attempt (2 s, doubled per earlier timeout of the request); if the harness's own timers ran more than twice late the case is inconclusive")
 	r.Assume("idle-timeout-verdict-missing is raised only (a) when no peer is connected, nothing happened in the scenario for 12 s, twenty harness timers of the batch's idle duration (<= 300 ms) fired one after the other in that silence, and the scenario's dispatcher goroutine is parked at one statement in two samples 2 s apart, or (b) from the history alone: a request was handed to a peer again after at least two complete worker timeouts (>= 2 s each, >= 20 idle timeouts in total) at connected peers that never answered, with no successful query of the batch in between; the watchdog alone is inconclusive")
 
 	n := r.Pick(300, 40000)
 	nIdle := r.Pick(24, 3000)
 	nQuiet := r.Pick(27, 3000)
+	nChat := r.Pick(6, 120)
 	if *l2Only {
-		n, nIdle, nQuiet = 0, 0, 0
+		n, nIdle, nQuiet, nChat = 0, 0, 0, 0
 	}
 	if *idleOnly {
-		n, nQuiet, *noL2 = 0, 0, true
+		n, nQuiet, nChat, *noL2 = 0, 0, 0, true
 	}
 	if *quietOnly {
-		n, nIdle, *noL2 = 0, 0, true
+		n, nIdle, nChat, *noL2 = 0, 0, 0, true
+	}
+	if *chatOnly {
+		n, nIdle, nQuiet, *noL2 = 0, 0, 0, true
 	}
 	scs := c12.Generate(r.Seed, n)
 	scs = append(scs, c12.GenerateIdleStall(r.Seed, nIdle, n)...)
 	scs = append(scs, c12.GenerateQuietReconnect(r.Seed, nQuiet, n+nIdle)...)
+	scs = append(scs, c12.GenerateChatter(r.Seed, nChat, n+nIdle+nQuiet)...)
 	width := r.Pick(128, 192)
 	if *conc > 0 {
 		width = *conc
@@ -268,7 +275,7 @@ func runChild() {
 	)
 	// The idle-stall family is started first (its scenarios sit at the end of
 	// the list so that -only keeps its meaning); order of starting only.
-	first := func(k string) bool { return k == "idlestall" || k == "quietreconn" }
+	first := func(k string) bool { return k == "idlestall" || k == "quietreconn" || k == "chatter" }
 	sort.SliceStable(scs, func(i, j int) bool {
 		return first(scs[i].Kind) && !first(scs[j].Kind)
 	})
@@ -296,6 +303,10 @@ func runChild() {
 				vkinds[k] += v
 			}
 			for k, v := range res.Counters {
+				if strings.HasPrefix(k, "chatter_longest_") {
+					totals[k] = max(totals[k], v)
+					continue
+				}
 				totals[k] += v
 			}
 			if d > longest {
@@ -344,6 +355,15 @@ func runChild() {
 		totals["quietreconn_batches_served_by_reconnected_peer_as_only_responsive_peer"] == 0 {
 		r.Inconclusive("quiet-reconnect family: no batch was observed being served by a peer that had re-connected under its old address as the only responsive peer")
 	}
+	fmt.Printf("C12 chatter family: scenarios=%d requests at a talkative peer that never answers=%d (messages handled without progress=%d); re-issued to another peer=%d, to the same peer=%d; longest stretch with a responsive peer idle (harness-timer lower bound)=%d ms\n",
+		totals["chatter_scenarios"], totals["chatter_requests_at_talkative_peer"],
+		totals["chatter_messages_handled_without_progress"], totals["chatter_requests_reissued_to_another_peer"],
+		totals["chatter_requests_reissued_to_the_talkative_peer"],
+		totals["chatter_longest_stretch_request_at_talkative_peer_while_responsive_peer_idle_ms"])
+	if *replay == "" && *only < 0 && nChat > 0 && r.Violations() == 0 &&
+		totals["chatter_requests_reissued_after_talk_without_progress"] == 0 {
+		r.Inconclusive("chatter family: no request was observed being re-issued after a peer talked without answering")
+	}
 	floor := r.Pick(40, 300)
 	if *replay != "" || *only >= 0 {
 		floor = 1
@@ -356,6 +376,9 @@ func runChild() {
 	}
 	if *quietOnly {
 		floor = r.Pick(10, 100)
+	}
+	if *chatOnly {
+		floor = 1
 	}
 	fmt.Printf("C12 L2 family: scenarios=%d non-trivial=%d\n", l2Cases, l2Good)
 	r.Finish(floor)
